@@ -290,11 +290,16 @@ def renderT : List PLine → List Char
   | [] => []
   | l :: ls => l.render ++ '\n' :: renderT ls
 
+/-- `_new_line` followed by the writes that make up the text of `l` -/
+def W.start (w : W) (l : PLine) : W := ⟨w.flushed, some l.render, w.indent⟩
+
 /-- the writer after these lines have been started one after the other (the last one is still open) -/
-def W.push (w : W) (ls : List PLine) : W :=
-  match ls.getLast? with
-  | none => w
-  | some l => ⟨w.flushed ++ renderT ls.dropLast, some l.render, w.indent⟩
+def W.push (w : W) : List PLine → W
+  | [] => w
+  | l :: ls => (w.start l).push ls
+
+/-- a line on which nothing but the indentation was written -/
+def PLine.blank (l : PLine) : Bool := l.text.isEmpty
 
 /-! ### the reader: line structure of CPython's tokenizer -/
 
